@@ -42,6 +42,22 @@ package numeric
 //@     invariant forall j uint :: nChars < j && j <= nchars(shift) ==> rv[j] == digit(in, shift, j)
 //@     decreases nChars
 
+//@ func NewPrefixCodedInt64(in, shift) (rv, err)
+//@   mode bv
+//@   nopanic
+//@   modifies
+//@   ensures shift > 63 ==> err != nil && rv == nil
+//@   ensures shift <= 63 ==> err == nil && len(rv) == int64(nchars(shift)) + 1
+//@   ensures shift <= 63 ==> rv[0] == 0x20 + byte(shift)
+//@   ensures shift <= 63 ==> (forall j uint :: 1 <= j && j <= nchars(shift) ==> rv[j] == digit(in, shift, j))
+
+//@ func MustNewPrefixCodedInt64(in, shift) (rv)
+//@   mode bv
+//@   requires shift <= 63
+//@   modifies
+//@   ensures len(rv) == int64(nchars(shift)) + 1 && rv[0] == 0x20 + byte(shift)
+//@   ensures forall j uint :: 1 <= j && j <= nchars(shift) ==> rv[j] == digit(in, shift, j)
+
 //@ func PrefixCoded.Shift
 //@   mode bv
 //@   nopanic
